@@ -592,6 +592,7 @@ func TestVerifC03Replay(t *testing.T) {
 		s.Count(fmt.Sprintf("restore_%d", b2i(c.restore)))
 		s.Count(fmt.Sprintf("tick_%d", c.tick))
 		s.Count(fmt.Sprintf("rht_%d", b2i(c.rht)))
+		c.flt.RHT = c.rht // the monitor's filter decision looks at the TARGET key too (/repo e867911)
 		s.Add("restore_bad_data_format_fallbacks", tg.BadFormat)
 		// observation, not a verdict: pending ids whose entry is gone cannot be recreated by commands
 		s.Add("xclaim_for_an_id_that_is_not_an_entry_of_the_stream(no_pending_entry_created)", tg.XclaimNoEntry)
@@ -773,10 +774,11 @@ func TestVerifC03Replay(t *testing.T) {
 			if gv, ok := got[id]; !ok {
 				s.Violate("key-missing", "snapshot key not on the target: "+id, replay)
 			} else if alt, ok := wantNoIdle[id]; gv != w && ok && gv == alt {
-				// everything is there except consumers with an EMPTY pending list: the tool emits no XGROUP
-				// CREATECONSUMER (known finding C03-F1; the RESTORE path and Redis' AOF rewrite keep them)
+				// everything is there except consumers with an EMPTY pending list: no XGROUP CREATECONSUMER reached
+				// a 6.2+ target (was known finding C03-F1 `stream-idle-consumer-dropped`, repaired in /repo ecb288f:
+				// since then this is an ordinary violation, reported under a name the old finding does not match)
 				rp := map[string]interface{}{"op": replay["op"], "cause": "consumer-with-empty-pel-not-recreated-on-expansion-path"}
-				s.Violate("stream-idle-consumer-dropped", fmt.Sprintf("%s: target has %.300s, dataset has %.300s", id, gv, w), rp)
+				s.Violate("stream-idle-consumer-missing", fmt.Sprintf("%s: target has %.300s, dataset has %.300s", id, gv, w), rp)
 			} else if gv != w {
 				s.Violate("value-differs", fmt.Sprintf("%s: target has %.300s, dataset has %.300s", id, gv, w), replay)
 			}
